@@ -237,6 +237,21 @@ func rateLimitScripts(cfg ckConfig, rng *rand.Rand) (scripts []ckScript, gapsPer
 			withSession = append(withSession, sess)
 		}
 	}
+	// the loop the limiter exists for: a browser with a valid session that COMPLETES every login round trip (login, provider,
+	// callback, back to login ...). Every callback succeeds and sets a new session; the attempts must still be counted.
+	// (withSession=false here only means: no abstract crl line is derived from these scripts.)
+	for _, g := range patterns[:4] {
+		items := []ckItem{req("L", o+"/login", "n"), req("C", o+"/callback", "n")}
+		for _, d := range g {
+			if d < 0 {
+				d = 0
+			}
+			items = append(items, ckItem{ep: "L", path: o + "/login", fault: "n", dt: d}, req("C", o+"/callback", "n"))
+		}
+		scripts = append(scripts, ckScript{cfg: cfg, https: h.https, hostport: h.hostport, probes: probes, items: items})
+		gapsPer = append(gapsPer, g)
+		withSession = append(withSession, false)
+	}
 	return
 }
 
